@@ -124,7 +124,7 @@ def decompose_jobs(ctx, n_per_lib, graph=True, as_mol=False):
         for k, s in enumerate(range(0, len(pool), step)):
             # every other job first asks ANOTHER scheme object for the same strings in the same process
             jobs.append({'lib': lib, 'smiles': pool[s:s + step], 'graph': graph, 'as_mol': as_mol, 'timeout': 300,
-                         'prime': libs[(li + 1 + k) % len(libs)] if k % 2 == 0 else None})
+                         'prime': libs[(li + 1 + k) % len(libs)] if k % 2 == 0 else None, 'mol_twice': k % 3 == 0})
     return jobs
 
 
@@ -142,6 +142,23 @@ def run(ctx):
         path = write_syn(sch, os.path.join(vlib.WORK, 'c02_' + sch['name']))
         syn_of[path] = sch
         jobs.append({'lib': path, 'smiles': sch['mols'], 'graph': True, 'as_mol': False, 'timeout': 300})
+    # the synthetic scheme files written one after the other to ONE path and loaded from there
+    rl_path = os.path.join(vlib.WORK, 'c02_reload', 'scheme.yaml')
+    os.makedirs(os.path.dirname(rl_path), exist_ok=True)
+    rl_mols = ['CC', 'CCC', 'CCO', 'C', 'CO', 'C=C', 'COC']
+    rl = {'op': 'reload', 'path': rl_path, 'texts': [open(p_).read() for p_ in syn_of] * 2, 'smiles': rl_mols, 'timeout': 300}
+    rl_ref = [{'lib': p_, 'smiles': rl_mols, 'graph': False, 'as_mol': False, 'timeout': 300} for p_ in syn_of]
+    rr, _ = vlib.run_impl('scheme', {'cases': [rl]}, timeout=600)
+    rf = vlib.run_impl_sharded('scheme', rl_ref, timeout=600)
+    if rr and 'reload' in rr['results'][0] and all('results' in x for x in rf):
+        want = [[y['impl'] for y in x['results']] for x in rf] * 2
+        for k, (got, w) in enumerate(zip(rr['results'][0]['reload'], want)):
+            ctx.count(('reload', k))
+            if got != w:
+                ctx.violate('reload:%d' % k, 'a scheme file loaded from a path where another scheme file was loaded before does not decompose like the file says',
+                            {'op': 'reload', 'step': k, 'smiles': rl_mols}, w, got)
+    else:
+        ctx.broken.append('reload job failed: %s' % str(rr)[:200])
     res = vlib.run_impl_sharded('scheme', jobs, timeout=3000)
     rows = {}
     hist = {'decomposed': 0, 'pattern_error': 0, 'other_error': 0}
@@ -154,6 +171,13 @@ def run(ctx):
             if x.get('bad_smiles') or not x.get('graph'):
                 continue
             im = x['impl']
+            six = [set(r_) for r_ in x['graph']['sssr'] if len(r_) == 6]
+            fused = any(len(a & b) >= 2 for i_, a in enumerate(six) for b in six[i_ + 1:])       # spelling dependent: C03's known finding
+            for k_, mh in enumerate([] if fused else x.get('molH', [])):
+                if mh != im:
+                    ctx.violate('mol-object:%s|%s|%d' % (j['lib'], smi, k_), 'a molecule object with explicit hydrogens handed in %s decomposes differently from its SMILES'
+                                % ('the first time' if k_ == 0 else 'a second time'), {'lib': j['lib'], 'smiles': smi}, im, mh)
+                    break
             ctx.count((j['lib'], x['graph']['canon']), nontrivial='d' in im and len(im['d']) >= 2)
             if 'd' in im:
                 hist['decomposed'] += 1
